@@ -582,7 +582,9 @@ RangeToken* RegxParser::processBacksolidus_pP(const XMLInt32 ch) {
         ThrowXMLwithMemMgr(ParseException,XMLExcepts::Parser_Atom2, fMemoryManager);
 
     XMLSize_t nameStart = fOffset;
-    int nameEnd = XMLString::indexOf(fString,chCloseCurly,nameStart, fMemoryManager);
+    // indexOf() throws ArrayIndexOutOfBoundsException for a start index at the end
+    int nameEnd = (nameStart < fStringLen)
+                ? XMLString::indexOf(fString,chCloseCurly,nameStart, fMemoryManager) : -1;
 
     if (nameEnd < 0)
         ThrowXMLwithMemMgr(ParseException,XMLExcepts::Parser_Atom3, fMemoryManager);
